@@ -522,7 +522,10 @@ class ExecMixin:
                 v, _ = self.ev(rhs, e2)
                 if z3.is_expr(v) and v.sort() != srt and srt == R: v = z3.ToReal(v)
                 st.arr(key, 1, srt)
-                st.heap[key] = z3.Lambda([qv], v)
+                # fresh array with a defining axiom (a lambda term would be rejected inside quantifier patterns)
+                newarr = z3.Const('H!' + fresh_name(key), z3.ArraySort(I, srt))
+                st.assume(z3.ForAll([qv], Select(newarr, qv) == v, patterns=[Select(newarr, qv)]))
+                st.heap[key] = newarr
                 st.writes.append((key, None))
             elif k == 'assert':
                 self.oblige(st, fr, 'ghost.assert', '', self.ev_bool(s[1], env), None, text=s[2])
